@@ -3,7 +3,8 @@ import OpusProofs.SilkSymsHistory
 import OpusProofs.SilkSymsLag
 import OpusProofs.CeltSymsHeader
 import OpusProofs.SilkSymsJ2
-import OpusProofs.CeltBandsAllocOps
+import OpusProofs.CeltBandsJ
+import OpusProofs.CeltBandsBudget
 /-
   Property C03 — "decoder output conforms to the RFC 6716 reference decoder", bit-stream half, stage 1:
   the SILK symbol layer.  `Opus.SilkSyms.decodePacket` (OpusModel/SilkSyms.lean) is the frozen normative
@@ -248,6 +249,29 @@ theorem celtFrame_total_arbitrary_bytes (bandwidth nCh spf48 : Nat) (hC : nCh = 
   · exact celtFrame_total _ _ _ (J_decInit frame frame.length) hlm hC hs0 he (by omega)
   · intro mode ms10 fec st o len hl h17 ho
     exact celtFrame_total _ _ _ (decodeOpusFrame_J mode bandwidth nCh ms10 fec st frame o ho) hlm hC h17 he (by omega)
+
+open Opus.CeltSyms Opus.CeltBands Opus.CeltBandsProofs Opus.CeltSymsProofs in
+/-- The decoder invariant `J` survives a whole CELT frame: every state the frame model passes through — at the entry of
+    the allocation, behind it, and at the end of the frame (whose `rng` is the packet's final range) — satisfies
+    `val < 2^32`, `2^23 < rng ≤ 2^31`; in particular every `ec_dec_update(fl, fh, ft)` of the three theta PDFs has
+    `fl < fh ≤ ft ≤ 32768` and every `ec_dec_uint` (multi-byte path included) leaves the range normalised. -/
+theorem celtFrame_preserves_J (cfg : CeltCfg) (len : Nat) (c : Dec) (hj : J c) (hl : cfg.LM < 4)
+    (hC : cfg.C = 1 ∨ cfg.C = 2) (hse : cfg.start < cfg.end_) (he : cfg.end_ ≤ 21) (hlen : len ≤ 262144) (f : CeltFrame)
+    (hf : celtFrame cfg len c = .ok f) : J f.fin.c ∧ J f.allocSt.c ∧ J f.hdr.dec :=
+  celtFrame_J cfg len c hj hl hC hse he hlen f hf
+
+open Opus.CeltSyms Opus.CeltBands Opus.CeltBandsProofs in
+/-- The budget discipline of the band data, exactly as far as the code's accounting carries (bands.c:1046-1059, 930-941;
+    `ctx->remaining_bits` = `total_bits - ec_tell_frac - 1` at the start of a band, in 1/8 bit):
+    a no-split partition charges the CACHED cost `pulses2bits(q)` of the pulse count it ends with, and reads a PVQ index
+    only if the tracked budget is still non-negative after that charge (the "never bust the budget" loop); a sign bit of an
+    `N = 1` band is read only while 8 (one whole bit) is left and costs exactly 8.
+    This is a statement about cached costs, not about `ec_tell_frac` itself: see UNPROVED `celtFrame_within_budget`. -/
+theorem celtBands_reads_within_tracked_budget (i lm1 N : Nat) (b : Int) (s : BSt) :
+    ((leaf i lm1 N b s).tr ≠ s.tr → 0 ≤ (leaf i lm1 N b s).rem) ∧
+    (∃ q, (leaf i lm1 N b s).rem = s.rem - p2b (rowOf lm1 i) q) ∧
+    ((n1One s).tr ≠ s.tr → 8 ≤ s.rem ∧ (n1One s).rem = s.rem - 8) :=
+  ⟨(leaf_budget i lm1 N b s).2, ⟨_, (leaf_budget i lm1 N b s).1⟩, (n1One_budget s).1⟩
 
 /-- non-vacuity: a 10 ms mono wide-band CELT frame of arbitrary bytes runs through allocation, fine energy, the band
     data with theta splits and PVQ indices, and finalisation, without fault and inside its budget -/
